@@ -4,11 +4,11 @@ import (
 	"errors"
 	"fmt"
 	"io"
-	"runtime/debug"
 	"net/http/httptest"
 	"os"
 	"path/filepath"
 	"regexp"
+	"runtime/debug"
 	"strings"
 	"sync/atomic"
 	"time"
